@@ -27,7 +27,7 @@ def run(tier):
     exe = os.path.join(sc, "crc_probe")
     rc, out = C.run(["gcc", "-O1", "-msse4.2", "-I%s/include" % C.REPO, "-I%s/src" % C.REPO,
                      os.path.join(C.HARNESS, "crc_probe.c"), os.path.join(C.HARNESS, "crc_tables.c"),
-                     os.path.join(C.ROOT, "build", "plain", "crc32c.o"), os.path.join(C.ROOT, "build", "crcsw", "crc32c.o"), "-o", exe], check=False)
+                     os.path.join(C.build_dir(), "plain", "crc32c.o"), os.path.join(C.build_dir(), "crcsw", "crc32c.o"), "-o", exe], check=False)
     if rc != 0:
         raise C.ToolFailure("crc_probe build failed:\n" + out[-2000:])
     trace = os.path.join(sc, "crc.ndjson")
